@@ -105,6 +105,7 @@ CHECKS = {
             E("TestC06ChainTime"), E("TestC06AttestorAge"),
             E("TestC06KeySizes"),
             E("TestC06OddDeviceKeys"),
+            E("TestC06RootsReplaced"),
             R("TestC06Sequence", 300, 2000, ts=4),
             R("TestC06Concurrent", 30, 300, qs=2, ts=8),
             R("TestC06RealDER", 200, 800, ts=4),
@@ -149,7 +150,7 @@ CHECKS = {
         },
         "assumptions": ["golang.org/x/crypto keyring is the underlying agent"],
         "subchecks": [R("TestC09NoUpstream", 300, 1500, qs=2), R("TestC09Many", 25, 250, ts=4), R("TestC09AddedMeanwhile", 300, 3000, ts=8),
-                      R("TestC09Faults", 300, 3000, qs=2, ts=8), R("TestC09Locked", 300, 3000, qs=2, ts=8)],
+                      R("TestC09Faults", 300, 3000, qs=2, ts=8), R("TestC09Locked", 300, 3000, qs=2, ts=8), E("TestC09RefusedRemoveAll")],
     },
     "C10": {
         "pkg": "c10", "level": "exploration",
@@ -270,6 +271,7 @@ CHECKS = {
         "subchecks": [
             R("TestC16ParseAgree", 1500, 8000),
             R("TestC16Mutations", 15000, 100000),
+            E("TestC16Structure"),
             R("TestC16ModHex", 5000, 50000, ts=4),
             E("TestC16ModHexLengths"),
             R("TestC16PEM", 3000, 20000, ts=8),
